@@ -106,6 +106,16 @@ theorem C14.touch_sets_deadline (rb : RB) (now : Nat) (d : Dg) (sl : Slot)
     sl.expiredAt = now + rb.expiry := by
   exact touch_sets_deadline_lem rb now d sl h
 
+/-- REASSEMBLY ON THE WIRE: the same at the byte level - the receiver fed the *encoded* datagrams (8-byte header + payload,
+    as the transport's read loop hands them over) of genuine segments, in any order, interleaving, loss pattern and timing,
+    outputs exactly what `spec` says.  Composes the header round trip with `reassembly`; sequence numbers are 32-bit. -/
+theorem C14.wire_reassembly (P : Nat) (hP : 0 < P) (msgOf : Nat → Bytes) (segsOf : Nat → List Dg)
+    (tr : List (Nat × Dg)) (expiry : Nat) (g : Genuine P msgOf segsOf (tr.map (·.2)))
+    (hseq : ∀ x ∈ tr, x.2.seq < 4294967296) :
+    runBytes ⟨[], expiry⟩ (tr.map fun x => (x.1, x.2.encode)) = spec msgOf segsOf [] (tr.map (·.2)) := by
+  have _ := hP
+  exact wire_reassembly_lem P msgOf segsOf tr expiry g hseq
+
 /-- sequence numbers: the first is 0 and any 2^32 consecutive ones are pairwise distinct (wrap-around). -/
 theorem C14.seq_fresh : seqAt 0 = 0 ∧
     ∀ i j, i < j → j < i + 4294967296 → seqAt i ≠ seqAt j := by
@@ -115,6 +125,8 @@ theorem C14.seq_fresh : seqAt 0 = 0 ∧
    and is reassembled from a permuted arrival. -/
 example : segments 2 7 [1, 2, 3, 4, 5] = some [⟨7, 2, 0, [1, 2]⟩, ⟨7, 2, 1, [3, 4]⟩, ⟨7, 2, 2, [5]⟩] := by decide
 example : runDg ⟨[], 10⟩ [(0, ⟨7, 2, 2, [5]⟩), (1, ⟨7, 2, 0, [1, 2]⟩), (2, ⟨7, 2, 1, [3, 4]⟩)]
+    = [.none, .none, .msg 7 [1, 2, 3, 4, 5]] := by decide
+example : runBytes ⟨[], 10⟩ [(0, (⟨7, 2, 2, [5]⟩ : Dg).encode), (1, (⟨7, 2, 0, [1, 2]⟩ : Dg).encode), (2, (⟨7, 2, 1, [3, 4]⟩ : Dg).encode)]
     = [.none, .none, .msg 7 [1, 2, 3, 4, 5]] := by decide
 
 end Iscp.Seg
